@@ -1,0 +1,16 @@
+//go:build verif
+
+package factory
+
+// VerifScanYield, when set, is called by each goroutine that the parallel
+// definition-scanning phase starts, before it does anything else. The verification harness
+// in /verif uses it to park the goroutine so that the order in which the scanner goroutines
+// start, run and finish is a decision of the simulator. Only present under the build tag
+// `verif`; nil by default.
+var VerifScanYield func(componentName string)
+
+func verifScanYield(componentName string) {
+	if f := VerifScanYield; f != nil {
+		f(componentName)
+	}
+}
